@@ -142,6 +142,7 @@ pub fn p0_gvec<T>(v: &Vec<T>) -> bool { !v.is_empty() }
 pub static RE0: std::sync::LazyLock<regex::Regex> = std::sync::LazyLock::new(|| regex::Regex::new("^[a-z]+$").unwrap());
 pub static RE1: std::sync::LazyLock<regex::Regex> = std::sync::LazyLock::new(|| regex::Regex::new("@").unwrap());
 pub static RE2: std::sync::LazyLock<regex::Regex> = std::sync::LazyLock::new(|| regex::Regex::new("^.{2,4}$").unwrap());
+pub static RE3: std::sync::LazyLock<regex::Regex> = std::sync::LazyLock::new(|| regex::Regex::new("b{2}").unwrap());
 '''
 
 FLOAT = r'''
